@@ -12,6 +12,7 @@ mod msops;
 mod c01;
 mod c05;
 mod c15;
+mod c18;
 
 use std::env;
 
@@ -30,6 +31,7 @@ fn main() {
         "C01" => c01::run(&mut out, thorough, seed),
         "C05" => c05::run(&mut out, thorough, seed),
         "C15" => c15::run(&mut out, thorough, seed),
+        "C18" => c18::run(&mut out, thorough, seed),
         _ => {
             eprintln!("unknown property {}", prop);
             std::process::exit(2);
